@@ -497,8 +497,13 @@ func (r *rw) selectStmt(s *ast.SelectStmt) ast.Stmt {
 		clauses = append(clauses, &ast.CaseClause{List: []ast.Expr{&ast.BasicLit{Kind: token.INT, Value: strconv.Itoa(idx)}}, Body: append(pre, body...)})
 		idx++
 	}
+	// the switch gets a default clause in every case, so that it is a terminating statement exactly when the select
+	// was one (a function may end with a select whose clauses all return): the select's own default clause, or an
+	// unreachable one (Select only returns the indices of the listed cases)
 	if hasDefault {
-		clauses = append(clauses, &ast.CaseClause{List: []ast.Expr{&ast.BasicLit{Kind: token.INT, Value: strconv.Itoa(idx)}}, Body: defBody})
+		clauses = append(clauses, &ast.CaseClause{Body: defBody})
+	} else {
+		clauses = append(clauses, &ast.CaseClause{Body: []ast.Stmt{&ast.ExprStmt{X: call(ast.NewIdent("panic"), &ast.BasicLit{Kind: token.STRING, Value: `"vsched: select returned an index without a case"`})}}})
 	}
 	args := append([]ast.Expr{ast.NewIdent(strconv.FormatBool(hasDefault))}, cases...)
 	return &ast.SwitchStmt{Tag: call(vs("Select"), args...), Body: &ast.BlockStmt{List: clauses}}
